@@ -21,11 +21,13 @@ def run(ctx):
                 "followed by a dictionary tail (get/rm/put/count, complete foreach, destroy); key sets as for C17; "
                 "LeakSanitizer at exit (ht, sl); a case is non-trivial if it reaches a tagged situation (rm-parked, "
                 "rm-twice-zombie, get-zombie, reinsert-while-zombie, deferred-delete, multi-iter, iter-abandoned, "
-                "next-after-end, ...); distinct by SHA1 of the op lines; hashtable: exact comparison with the Lean model + "
-                "oracle; skiplist and trie: the real code against the python oracle only, generators do not avoid the "
-                "classes of the recorded findings K_C18_sl (D16) and K_C18_trie_split (D83), failures inside them are "
-                "counted as known-class-hit; traversal order = strcmp order (skiplist) / signed-char byte order (trie); "
-                "hashtable and skiplist under LeakSanitizer, the trie without (D82, outside C18)")
+                "next-after-end, ...); distinct by SHA1 of the op lines; every implementation listed in STREAMS: exact "
+                "comparison with its Lean model (which reproduces D16 / D83) + oracle, generated cases inside the classes "
+                "of the recorded findings K_C18_sl (D16) and K_C18_trie_split (D83) are filtered out on the model's "
+                "transcript (filtered-known-class), remaining failures inside them are counted as known-class-hit; traversal order = strcmp order (skiplist) / signed-char byte order (trie); "
+                "hashtable and skiplist under LeakSanitizer, the trie without (D82, outside C18); skiplist: 600/6000 further unfiltered cases + corpus "
+                "through qb_slclass: the Lean-stated class K_C18_sl (a shared forward array is freed, clean-up included) contains every "
+                "case on which the model crashes and every case of the python class predicate (slclass-* counters)")
     mapcheck.run(ctx, "C18", STREAMS, mapgen.gen_c18, mapgen.oracle_c18, 1500, 30000,
                  extra_selfcheck=lambda c: (mapcheck.monitor_selfcheck(c, STREAMS, c.scale(150, 1500)),
                                             mapcheck.sl_class_selfcheck(c, c.scale(600, 6000))),
